@@ -57,7 +57,7 @@ def confirm(name):
             caught[check] = {"exit": code, "violations": out.count("\nVIOLATION"), "first": first}
         meta["checks_quick"] = caught
         meta["also_run"] = old.get("also_run", [])
-        for key in ("needs_to_manifest", "thorough", "note"):
+        for key in ("needs_to_manifest", "thorough", "note", "holdout_raw", "strengthened_after_holdout"):
             if key in old:
                 meta[key] = old[key]
         notes = open(os.path.join(folder, "notes.md")).read() if os.path.exists(os.path.join(folder, "notes.md")) else ""
